@@ -8,13 +8,13 @@ from props.common import *
 
 PREFIX = ('threefish.',)
 ID = 'C02'
-LEAN_PROOFS = ['Proofs.C02_Threefish']
+LEAN_PROOFS = ['Proofs.C02_Threefish', 'Proofs.C02_ThreefishKat']
 GEN_ITEMS = ['Threefish']
 RULE = ('threefish: op lines = (enc|dec|ks|mix|mixinv, key, tweak, block) over the three sizes: zero / all-one / single-bit / random keys, '
         'tweaks and blocks, one-bit differences, every rotation constant (d mod 8, j) and every key-schedule round s, wrong sizes; '
         'distinct lines; non-trivial = the implementation returned a value')
 TRUSTED = ['Spec.Threefish is a rendering of Skein 1.3 section 3.3 (tables typed from the text); no executable Threefish oracle exists offline: '
-           'the Spec rests on the text and on the six published vectors of tests/test_threefish.py (replayed in the stream against Spec and reference)',
+           'the Spec rests on the text and on the six published vectors of tests/test_threefish.py (replayed in the stream against Spec and reference) and on the published all-zero known answers of Threefish-256/512/1024, which hold for Spec.Threefish.enc/dec in the kernel and for the model through enc_refines/dec_refines (Proofs.C02_ThreefishKat)',
            'list indices of the Threefish model use getD with a zero word (all are in range by construction; an IndexError of the code would be ERR in the stream)']
 ASSUMPTIONS = ['Threefish keys/tweaks/blocks are byte strings (the int/list/Bits constructor forms are not exercised)',
                'python -O (asserts stripped) is out of scope']
